@@ -6,8 +6,9 @@ import time
 
 VERIF = os.path.dirname(os.path.dirname(os.path.abspath(__file__)))
 KNOWN = os.path.join(VERIF, "known_findings.json")
-REPLAYS = os.path.join(VERIF, "replays")
-EVIDENCE = os.path.join(VERIF, "evidence")
+OUT_ROOT = os.environ.get("VERIF_SCRATCH", VERIF)
+REPLAYS = os.path.join(OUT_ROOT, "replays")
+EVIDENCE = os.path.join(OUT_ROOT, "evidence")
 
 
 def load_known():
